@@ -70,7 +70,13 @@ fn triple() -> impl Strategy<Value = (i32, i32, i32, &'static str)> {
 fn avar_map() -> impl Strategy<Value = Vec<(i16, i16)>> {
     // interior knots on each side: strictly increasing `from`, non-decreasing `to`
     let side = proptest::collection::vec((1i16..16384, 0i16..=16384), 0..4);
-    (side.clone(), side, any::<bool>()).prop_map(|(neg, pos, steep)| {
+    (side.clone(), side, any::<bool>()).prop_map(|(neg, pos, steep)| avar_from_parts(&neg, &pos, steep))
+}
+
+/// The valid segment map built from interior knots of each side (the body of `avar_map()`'s map
+/// function, shared with `case_from_bytes`).
+fn avar_from_parts(neg: &[(i16, i16)], pos: &[(i16, i16)], steep: bool) -> Vec<(i16, i16)> {
+    {
         let mut m: Vec<(i16, i16)> = vec![(-16384, -16384)];
         let mut fs: Vec<i16> = neg.iter().map(|k| -k.0).collect();
         fs.sort();
@@ -122,7 +128,7 @@ fn avar_map() -> impl Strategy<Value = Vec<(i16, i16)>> {
         }
         m[last].1 = 16384;
         m
-    })
+    }
 }
 
 fn axis() -> impl Strategy<Value = Axis> {
@@ -582,4 +588,130 @@ impl Property for C13 {
             },
         );
     }
+}
+
+// ------------------------------------------------------------------ libFuzzer: bytes → Case
+
+/// One axis triple of `triple()`: same eight kinds, weights and ranges.
+fn u_triple(u: &mut arbitrary::Unstructured<'_>) -> (i32, i32, i32, &'static str) {
+    let f = |v: i32| v << 16;
+    let mut r = |lo: i32, hi: i32| u.int_in_range(lo..=hi).unwrap_or(lo);
+    match r(0, 14) {
+        0..=3 => {
+            let (a, b, c, fa, fb) = (r(1, 399), r(0, 599), r(0, 399), r(0, 65535), r(0, 65535));
+            let min = f(a) + (fa & 0xFFFF) * (fa & 1);
+            let def = min + f(b) + fb * (fb & 1);
+            (min, def, def + f(c), "ordinary")
+        }
+        4..=5 => (f(r(-90, -1)), 0, f(r(0, 89)), "around-zero"),
+        6 => {
+            let (a, c) = (r(-1000, 999), r(0, 499));
+            (f(a), f(a), f(a) + f(c), "min=default")
+        }
+        7 => {
+            let (a, c) = (r(-1000, 999), r(0, 499));
+            (f(a) - f(c), f(a), f(a), "default=max")
+        }
+        8 => {
+            let a = r(-1000, 999);
+            (f(a), f(a), f(a), "all-equal")
+        }
+        9..=10 => {
+            let (a, b, c, fr) = (r(-2000, 1999), r(0, 5), r(0, 5), r(0, 65535));
+            let min = f(a) + fr;
+            (min, min + b, min + b + c, "tiny")
+        }
+        11..=13 => {
+            let (a, b, c, fr) = (r(-8000, 7999), r(0, (4000 << 16) - 1), r(0, (4000 << 16) - 1), r(0, 65535));
+            let min = f(a) + fr;
+            (min, min + b, min + b + c, "fractional")
+        }
+        _ => {
+            let (min, max) = (r(i32::MIN, -1), r(0, i32::MAX));
+            let rr = r(i32::MIN, i32::MAX) as u32;
+            let span = (max as i64 - min as i64) as u64;
+            let def = (min as i64 + ((rr as u64 * span) >> 32) as i64) as i32;
+            (min, def, max, "wide")
+        }
+    }
+}
+
+fn u_side(u: &mut arbitrary::Unstructured<'_>) -> Vec<(i16, i16)> {
+    let n = u.int_in_range(0usize..=3).unwrap_or(0);
+    (0..n).map(|_| (u.int_in_range(1i16..=16383).unwrap_or(1), u.int_in_range(0i16..=16384).unwrap_or(0))).collect()
+}
+
+/// bytes → `Case` of `case_strategy()` (section `normalize`). Fixed-size choices first (axis count,
+/// axisSize excess, header gap, avar presence), then the axes: triple kind and its parameters, avar
+/// option (6/10) with 0-3 interior knots per side through the strategy's own map builder, six raw
+/// user values. An exhausted tape ends the axis list after the first axis; reads past the end
+/// yield the lower bounds, so every input is a case.
+pub fn case_from_bytes(data: &[u8]) -> arbitrary::Result<Case> {
+    let mut u = arbitrary::Unstructured::new(data);
+    let n = u.int_in_range(1usize..=4).unwrap_or(1);
+    let axis_size_extra = match u.int_in_range(0u8..=3).unwrap_or(0) {
+        3 => u.int_in_range(1u16..=8).unwrap_or(1),
+        _ => 0,
+    };
+    let header_gap = match u.int_in_range(0u8..=4).unwrap_or(0) {
+        4 => match u.int_in_range(0u8..=3).unwrap_or(0) {
+            0 => 2,
+            1 => 4,
+            2 => 20,
+            _ => u.int_in_range(1u16..=39).unwrap_or(1),
+        },
+        _ => 0,
+    };
+    let with_avar = u.int_in_range(0u8..=9).unwrap_or(0) < 7;
+    let mut axes = Vec::with_capacity(n);
+    for i in 0..n {
+        if i >= 1 && u.is_empty() {
+            break; // 1..=4 axes
+        }
+        let (min, default, max, kind) = u_triple(&mut u);
+        let avar = if u.int_in_range(0u8..=9).unwrap_or(0) < 6 {
+            let neg = u_side(&mut u);
+            let pos = u_side(&mut u);
+            let steep: bool = u.arbitrary().unwrap_or_default();
+            Some(avar_from_parts(&neg, &pos, steep))
+        } else {
+            None
+        };
+        let randoms: Vec<i32> = (0..6).map(|_| u.arbitrary().unwrap_or_default()).collect();
+        axes.push(Axis { min, default, max, avar, randoms, kind });
+    }
+    let case = Case { axes, axis_size_extra, header_gap, with_avar };
+    if let Some(what) = domain_violation(&case) {
+        panic!("C13 case_from_bytes left the domain of case_strategy: {}", what);
+    }
+    Ok(case)
+}
+
+/// The invariants of `case_strategy()`, re-stated (asserted on every decoded case).
+pub fn domain_violation(c: &Case) -> Option<&'static str> {
+    if c.axes.is_empty() || c.axes.len() > 4 {
+        return Some("axis count outside 1..=4");
+    }
+    if c.axis_size_extra > 8 || c.header_gap > 39 {
+        return Some("axisSize excess or header gap out of range");
+    }
+    for a in &c.axes {
+        if !(a.min <= a.default && a.default <= a.max) {
+            return Some("axis triple not ordered");
+        }
+        if a.randoms.len() != 6 {
+            return Some("not six user values");
+        }
+        if let Some(m) = &a.avar {
+            if m.len() < 3 || m.len() > 9 || m[0] != (-16384, -16384) || m[m.len() - 1] != (16384, 16384) || !m.contains(&(0, 0)) {
+                return Some("avar map without the three required entries");
+            }
+            for w in m.windows(2) {
+                if w[0].0 >= w[1].0 || w[0].1 > w[1].1 {
+                    return Some("avar map not monotone");
+                }
+            }
+        }
+    }
+    None
 }
